@@ -140,6 +140,8 @@ def run(chk, replay=None):
             "FILETIME.ToInt64 for tick counts >= 2^63 has no int64 value: the two's-complement reading is expected, as drift",
             "random values: 16-bit LCG in the specification, math/rand in the recorder (both sampled)",
         ]
+        # ---- the same entry points called by 8 goroutines at once (race-detector build): results as when called alone
+        vlib.parallel_callers(chk, "time")
     finally:
         if saved is None:
             os.environ.pop("_JAVA_OPTIONS", None)
